@@ -472,7 +472,10 @@ def verdict_instrumented():
 
     def w_is_shutdown(self):
         sc = _State.current
-        if sc is not None and threading.current_thread() is main_thread and _State.exec_fn.get(id(self)) == sc.fn:
+        # (a done-callback added to a future that has already finished runs in the adding thread: the is_shutdown() of
+        # _get_solver_output may then be called by the main thread - that is not the loop head)
+        in_callback = getattr(_TL, "cb_sched", None) is not None
+        if sc is not None and not in_callback and threading.current_thread() is main_thread and _State.exec_fn.get(id(self)) == sc.fn:
             p = sc.npaths
             sc.npaths += 1
             sc.enter("E", p)
